@@ -174,6 +174,11 @@ func c05GenTyped(g *Gen, typ string, depth int) c05Doc {
 					m[term] = fmt.Sprintf("PT%dM", secs/60)
 				}
 			}
+			if g.Chance(1, 4) { // whole days in front (the only date designator of fixed length)
+				days := 1 + g.Intn(400)
+				m[term] = fmt.Sprintf("P%dD%s", days, strings.TrimPrefix(m[term].(string), "P"))
+				secs += days * 86400
+			}
 			if g.Chance(1, 3) { // a negative duration is a duration too
 				m[term] = "-" + m[term].(string)
 				secs = -secs
